@@ -52,6 +52,10 @@ CLAIMS.update({
     "C13": dict(engine="rm", technique="runtime monitoring: before/after observation around every reconfiguration (incl. policy-internal state) + differential twins with self-twin calibration",
                 text="Exploration: every reconfiguration inside generated histories is bracketed by observations (per-container cache resources, runtime view, advertised zones, policy assignments, policy-internal state steering later decisions): identical configs and rejected configs of every rejection kind must change nothing, accepted ones must leave every live container allocated; differential twins replay a deterministic history with a rejected update injected at a PRNG-chosen boundary and compare every later request.",
                 ref="DESIGN.md §4 C13"),
+    "C14": dict(engine="rm", note=RM_NOTE + " Side plugins: in-package test drivers (overlay) set the plugin struct up as main() does and call the NRI handlers directly; log.Fatal is turned into a panic via logrus' ExitFunc; a child process that dies is attributed to the call logged before it.",
+                technique="runtime monitoring: hostile well-formed NRI requests through the real handlers under recover(), canary lifecycles / differential canaries against a fresh instance, process-death attribution",
+                text="Exploration: (a) resource-policy pipeline, both policies: hostile histories (unknown/duplicate/out-of-order IDs, containers of unknown pods, Synchronize with dangling references, every interpreted annotation key x hostile values, absent sub-messages, extreme resource values); every handler call must return without panicking and a benign reserved-class canary lifecycle must succeed afterwards (a refusal for exhausted capacity is accepted); (b) memory-qos, memtierd, sgx-epc: tens of thousands of event sequences on fresh plugin instances (missing/hostile configuration, absent sub-messages, 13 hostile value classes per annotation key); after every refused or panicked call and at the end of every case a benign sequence must answer exactly like a fresh instance.",
+                ref="DESIGN.md §4 C14, §10.8"),
     "C15": dict(engine="rm", note=RM_NOTE + " Race reports come from the Go race detector (happens-before: reports real races on executed paths only, never false ones).",
                 technique="runtime monitoring: Go race detector over concurrent handler bursts; porcupine linearizability check of cache membership; state-invariant monitors at quiescence; watchdog for deadlocks",
                 text="Exploration: a -race build of the real pipeline (both policies) receives bursts of 2-6 concurrent requests (container and pod lifecycle, updates, Synchronize, reconfigure, policy events) plus a fake kubelet pod-resources server with PRNG delays; the race detector must stay silent (reports are deduplicated by site pair), the recorded call/return history must be linearizable against a sequential membership model, all order-independent C01-C05/C09 clauses are checked at quiescence, a watchdog flags bursts that never return, and a pod inserted with a pending resource fetch must see its result.",
@@ -63,6 +67,10 @@ CLAIMS.update({
                 technique="runtime monitoring: exhaustive event-sequence enumeration to depth 5/6 with trace invariants and a doc-derived reference state machine",
                 text="Exploration, exhaustive up to the stated depth: every sequence of watch events over a 15-event alphabet is fed to a fresh Agent; after every event the notify/patch trace is checked against precedence, fallback, re-delivery suppression and validation invariants.",
                 ref="DESIGN.md §4 C17"),
+    "C18": dict(engine="lib", note=LIB_NOTE + " Side plugins: in-package test drivers (overlay) calling the real CreateContainer/StartContainer/parseEpcLimit; reference resolvers written from docs/memory/*.md.",
+                technique="runtime monitoring: doc-derived reference resolver vs real lookups under shuffled map insertion orders; reduced-map equivalence (annotations for other containers have no effect); explicit parameter vs class-derived value",
+                text="Exploration: annotation maps with container names that are prefixes/suffixes of each other and look-alike keys; for the resource-policy cache every policy annotation key is resolved through the real cache pod/container lookups in 4 insertion orders x 16 repetitions; for memory-qos, memtierd and sgx-epc every map is evaluated 16 times through the real handlers with shuffled map order and once reduced to the effective annotations; results are compared with the documented precedence (container-specific > pod-wide > bare key) and, in memory-qos/memtierd, explicit cgroup parameters must override class-derived values.",
+                ref="DESIGN.md §4 C18, §10.8"),
     "C19": dict(engine="lib", note=LIB_NOTE, technique="runtime monitoring: operator duality, doc-derived reference evaluator, joint keys, weight clamping, balloon-type selection through the real policy",
                 text="Exploration: hundreds of thousands of expressions evaluated on real cache pods/containers against dual-operator laws and a reference evaluator written from the documentation; affinity weights parsed from real annotations; balloon type observed in the real balloons policy against the documented selection order.",
                 ref="DESIGN.md §4 C19"),
@@ -114,6 +122,8 @@ def main():
              "kind_free_text": "direct calls of public package APIs on generated inputs with independent oracles"},
             {"name": "agent", "path": "/verif/overlay/pkg/agent/verif_agent_test.go", "serves_properties": ["C17"],
              "kind_free_text": "in-package test driver of pkg/agent built with go test -c -overlay"},
+            {"name": "side", "path": "/verif/overlay/cmd/plugins", "serves_properties": ["C14", "C18"],
+             "kind_free_text": "in-package test drivers of cmd/plugins/{memory-qos,memtierd,sgx-epc} built with go test -c -overlay; run next to the rm (C14) and lib (C18) jobs of the same check"},
         ],
         "checks": checks,
         "notes": "Runtime monitoring only. Exit codes: 0 held / 1 VIOLATION / 2 INCONCLUSIVE (never a VIOLATION line). Known findings: /verif/known-findings.jsonl. See DESIGN.md.",
